@@ -504,3 +504,164 @@ Proof.
 Qed.
 
 End T.
+
+(** ** The same in the integer-only vocabulary of spec/RneZ.v *)
+From ML Require spec.RneZ spec.RneBridge.
+
+Lemma sfmt_bfmt f : sfmt_ok f = true -> RneBridge.bfmt_ok f = true.
+Proof. unfold sfmt_ok, RneBridge.bfmt_ok. lia. Qed.
+
+Lemma decQ_frac w q : (RneZ.dec_num w q # Z.to_pos (RneZ.dec_den q) == decQ w q)%Q.
+Proof.
+  unfold RneZ.dec_num, RneZ.dec_den, decQ. destruct (0 <=? q) eqn:Hq.
+  - rewrite pow10Q_nonneg_inj by lia. rewrite <- inject_Z_mult. reflexivity.
+  - replace q with (- (- q)) at 2 by lia. rewrite pow10Q_neg by lia.
+    unfold Qeq, Qmult, inject_Z. cbn [Qnum Qden Pos.mul]. ring.
+Qed.
+
+Lemma dec_frac_pos w q : 0 <= w -> 0 <= RneZ.dec_num w q /\ 0 < RneZ.dec_den q.
+Proof.
+  intros Hw. unfold RneZ.dec_num, RneZ.dec_den. destruct (0 <=? q) eqn:Hq.
+  - assert (0 < 10 ^ q) by (apply Z.pow_pos_nonneg; lia). nia.
+  - assert (0 < 10 ^ (- q)) by (apply Z.pow_pos_nonneg; lia). lia.
+Qed.
+
+(** [rne_bits] of a decimal value [w * 10^q] is [RN] of [decQ w q] *)
+Theorem rne_bits_decQ f w q bits : sfmt_ok f = true -> 0 <= w ->
+  (RneZ.rne_bits f (RneZ.dec_num w q) (RneZ.dec_den q) bits <-> RN f (decQ w q) = bits).
+Proof.
+  intros Hok Hw. destruct (dec_frac_pos w q Hw) as [Hn Hd].
+  rewrite (RneBridge.rne_bits_iff_RN f (sfmt_bfmt f Hok) _ _ bits Hn Hd).
+  rewrite (RN_Qeq f Hok _ (decQ w q)); [reflexivity| |apply decQ_frac].
+  unfold Qle. cbn [Qnum Qden]. lia.
+Qed.
+
+(** D for [rne_bits]: a bit pattern is correct for the truncated value with its sticky digit
+    iff it is correct for the full digit string *)
+Theorem truncation_preserves_rne_bits f (s : list Z) (X : Z) :
+  sfmt_ok f = true -> trunc_ok f = true ->
+  forallb digitb s = true -> hd 48 s <> 48 -> MAX_DIGITS f < zlen s ->
+  let n := Z.to_nat (MAX_DIGITS f) in
+  let N0 := digits_to_Z (firstn n s) in
+  let k := X + zlen s - MAX_DIGITS f in
+  all0 (skipn n s) = false ->
+  forall bits,
+    RneZ.rne_bits f (RneZ.dec_num (N0 * 10 + 1) (k - 1)) (RneZ.dec_den (k - 1)) bits <->
+    RneZ.rne_bits f (RneZ.dec_num (digits_to_Z s) X) (RneZ.dec_den X) bits.
+Proof.
+  intros Hok Ht Hs Hhd Hlen n N0 k Hr bits.
+  destruct (truncation_preserves_rounding f Hok Ht s X Hs Hhd Hlen) as (HN & Hne & _).
+  fold n N0 k in HN, Hne. specialize (Hne Hr).
+  assert (0 < 10 ^ (MAX_DIGITS f - 1)).
+  { apply Z.pow_pos_nonneg; [lia|]. unfold trunc_ok in Ht. lia. }
+  pose proof (digits_bound s Hs).
+  rewrite !rne_bits_decQ by (assumption || lia). rewrite Hne. reflexivity.
+Qed.
+
+(** ** Instances and examples *)
+Definition truncation_preserves_rounding_F64 :=
+  truncation_preserves_rounding F64 sfmt_ok_F64 trunc_ok_F64.
+Definition truncation_preserves_rounding_F32 :=
+  truncation_preserves_rounding F32 sfmt_ok_F32 trunc_ok_F32.
+
+(** decimal digits (ASCII codes) of [n], [len] of them *)
+Fixpoint zdigits (len : nat) (n : Z) (acc : list Z) : list Z :=
+  match len with
+  | O => acc
+  | S l => zdigits l (n / 10) ((n mod 10 + 48) :: acc)
+  end.
+
+(** binary32: the tie 1 + 2^-24 = 1.000000059604644775390625 between 1.0 (0x3f800000, even) and
+    its successor, followed by zeros up to 200 digits and a final 7 *)
+Definition ex32_tie : Z := 1000000059604644775390625.
+Definition ex32_s : list Z := zdigits 25 ex32_tie [] ++ zeros 174 ++ [55].
+Definition ex32_X : Z := -199.
+
+Example ex32_hyps :
+  forallb digitb ex32_s = true /\ hd 48 ex32_s <> 48 /\ MAX_DIGITS F32 < zlen ex32_s /\
+  all0 (skipn (Z.to_nat (MAX_DIGITS F32)) ex32_s) = false /\
+  canon0 F32 (2 ^ 23) (-23) /\ -23 + prec F32 <= emax F32 /\
+  (decQ (digits_to_Z (firstn (Z.to_nat (MAX_DIGITS F32)) ex32_s))
+        (ex32_X + zlen ex32_s - MAX_DIGITS F32) == bndQ (2 ^ 23) (-23))%Q.
+Proof.
+  vm_compute. repeat split; try discriminate; try reflexivity. right. discriminate.
+Qed.
+
+Example ex32_values :
+  RN F32 (decQ ex32_tie (-24)) = 1065353216 /\                       (* the tie: to even, 1.0 *)
+  RN F32 (decQ (digits_to_Z ex32_s) ex32_X) = 1065353217 /\           (* broken upward *)
+  RN F32 (decQ (digits_to_Z (firstn 114 ex32_s) * 10 + 1) (ex32_X + 200 - 114 - 1)) = 1065353217 /\
+  encode F32 (2 ^ 23) (-23) + 1 = 1065353217.
+Proof. vm_compute. repeat split; reflexivity. Qed.
+
+Example ex32_by_theorem :
+  RN F32 (decQ (digits_to_Z ex32_s) ex32_X) = encode F32 (2 ^ 23) (-23) + 1.
+Proof.
+  destruct ex32_hyps as (H1 & H2 & H3 & H4 & H5 & H6 & H7).
+  exact (proj1 (far_digit_breaks_tie F32 sfmt_ok_F32 trunc_ok_F32 ex32_s ex32_X _ _
+                  H1 H2 H3 H5 H6 H7 H4)).
+Qed.
+
+(** the same tie approached from below: 1.000000059604644775390624 999...9 (200 digits) rounds
+    down to 1.0 *)
+Definition ex32_nines : list Z := zdigits 25 (ex32_tie - 1) [] ++ repeat 57 175.
+Example ex32_nines_hyps :
+  forallb digitb ex32_nines = true /\ hd 48 ex32_nines <> 48 /\ MAX_DIGITS F32 < zlen ex32_nines /\
+  all0 (skipn (Z.to_nat (MAX_DIGITS F32)) ex32_nines) = false /\
+  (decQ (digits_to_Z (firstn (Z.to_nat (MAX_DIGITS F32)) ex32_nines) + 1)
+        (ex32_X + zlen ex32_nines - MAX_DIGITS F32) == bndQ (2 ^ 23) (-23))%Q.
+Proof. vm_compute. repeat split; try discriminate; reflexivity. Qed.
+
+Example ex32_nines_by_theorem :
+  RN F32 (decQ (digits_to_Z ex32_nines) ex32_X) = encode F32 (2 ^ 23) (-23) /\
+  encode F32 (2 ^ 23) (-23) = 1065353216.
+Proof.
+  destruct ex32_nines_hyps as (H1 & H2 & H3 & H4 & H7).
+  destruct ex32_hyps as (_ & _ & _ & _ & H5 & H6 & _).
+  split; [|vm_compute; reflexivity].
+  exact (proj1 (nines_below_tie_round_down F32 sfmt_ok_F32 trunc_ok_F32 ex32_nines ex32_X _ _
+                  H1 H2 H3 H5 H6 H7 H4)).
+Qed.
+
+(** binary64: the deepest boundaries.  [(2^54 - 3) * 2^-1075] is the tie between the subnormal/
+    normal seam floats with significands [2^53 - 2] (even) and [2^53 - 1]; it has 768 digits.
+    A 1 placed 1000 digits further breaks it upward. *)
+Definition ex64_c : Z := (2 ^ 54 - 3) * 5 ^ 1075.
+Definition ex64_s : list Z := zdigits 768 ex64_c [] ++ zeros 1000 ++ [49].
+
+Example ex64_hyps :
+  forallb digitb ex64_s = true /\ hd 48 ex64_s <> 48 /\ MAX_DIGITS F64 < zlen ex64_s /\
+  all0 (skipn (Z.to_nat (MAX_DIGITS F64)) ex64_s) = false /\
+  digits_to_Z (zdigits 768 ex64_c []) = ex64_c.
+Proof. vm_compute. repeat split; try discriminate; reflexivity. Qed.
+
+Example ex64_values :
+  (bndQ (2 ^ 53 - 2) (-1074) == decQ ex64_c (-1075))%Q /\
+  RN F64 (decQ ex64_c (-1075)) = 2 ^ 53 - 2 /\
+  RN F64 (decQ (digits_to_Z ex64_s) (-1075 - 1001)) = 2 ^ 53 - 1 /\
+  RN F64 (decQ (digits_to_Z (firstn 769 ex64_s) * 10 + 1) (-1075 - 1001 + 1769 - 769 - 1))
+    = 2 ^ 53 - 1.
+Proof. vm_compute. repeat split; reflexivity. Qed.
+
+(** Why [MAX_DIGITS] may not be smaller than 768 for binary64: keep only 767 digits of the
+    768-digit tie [(2^54 - 1) * 2^-1075] (odd significand [2^53 - 1]: the tie rounds up to
+    [2^53]) and the sticky digit lands below the tie: the result is one ulp too small. *)
+Definition bad64_c : Z := (2 ^ 54 - 1) * 5 ^ 1075.
+Example max_digits_767_is_wrong :
+  10 ^ 767 <= bad64_c < 10 ^ 768 /\
+  RN F64 (decQ bad64_c (-1075)) = 2 ^ 53 /\
+  RN F64 (decQ (bad64_c / 10 * 10 + 1) (-1075)) = 2 ^ 53 - 1.
+Proof. vm_compute. repeat split; try reflexivity. discriminate. Qed.
+
+Print Assumptions RN_differs_boundary.
+Print Assumptions RN_const_between.
+Print Assumptions RN_above_mid.
+Print Assumptions RN_below_mid.
+Print Assumptions RN_cell_const.
+Print Assumptions truncation_preserves_rounding.
+Print Assumptions truncation_preserves_rne_bits.
+Print Assumptions tie_cell_above.
+Print Assumptions tie_cell_below.
+Print Assumptions far_digit_breaks_tie.
+Print Assumptions nines_below_tie_round_down.
+Print Assumptions trailing_zeros_irrelevant.
